@@ -133,6 +133,28 @@ def gen(rng, shape=None):
         extra = [ov_i, ov_f, caller]
         root_funcs_all.append(caller)
         funcs = funcs + [ov_i, ov_f]
+    # several overloads of one name inside one imported library (either declaration order), each called from a root
+    # with the argument type that selects it: the importer must see every overload, not one per name
+    if rng.random() < 0.5:
+        wt_i = Func("wt", [(INT, "a")], INT, Block([Return(B("+", B("*", V("a", INT), IntLit(3)), IntLit(700)))]), False)
+        wt_f = Func("wt", [(FLOAT, "a")], FLOAT, Block([Return(B("+", B("*", V("a", FLOAT), FloatLit(0.25)), FloatLit(90000.0)))]), False)
+        wt_v = Func("wt", [(F2, "a")], FLOAT, Block([Return(B("+", _sw(V("a", F2), "y"), FloatLit(500000.0)))]), False)
+        ovs = [wt_i, wt_f] + ([wt_v] if rng.random() < 0.5 else [])
+        rng.shuffle(ovs)
+        lname, lfs, limps = rng.choice(sp.libs)
+        lfs.extend(ovs)
+        rname, rfs, rimps, rgl = sp.roots[-1]
+        x = V("x", INT)
+        e = B("+", Call("wt", [x], INT, wt_i), Call("wt", [B("*", x, FloatLit(0.5))], FLOAT, wt_f))
+        if wt_v in ovs:
+            e = B("+", e, Call("wt", [_mkf2(x, INT)], FLOAT, wt_v))
+        caller = Func("wtcall", [(INT, "x")], FLOAT, Block([Return(e)]), True)
+        rfs.append(caller)
+        if lname not in rimps:
+            rimps.append(lname)
+            rimps.sort()
+        root_funcs_all.append(caller)
+        funcs = funcs + ovs
     sp.union = Module(globals=[g for _, _, _, gl in sp.roots for g in gl], funcs=funcs + root_funcs_all)
     # source texts with import placement variants
     for name, fs, imps in sp.libs:
